@@ -114,7 +114,7 @@ class GroupBCD(BaseSolver):
                             w=w, Xw=Xw)
 
             if self.verbose:
-                p_obj = datafit.value(y, w, Xw) + penalty.value(w)
+                p_obj = datafit.value(y, w, Xw) + penalty.value(w[:n_features])
                 print(
                     f"Iteration {t+1}: {p_obj:.10f}, "
                     f"stopping crit: {stop_crit:.2e}"
@@ -149,8 +149,9 @@ class GroupBCD(BaseSolver):
                 w_acc, Xw_acc, is_extrapolated = accelerator.extrapolate(w, Xw)
 
                 if is_extrapolated:  # avoid computing p_obj for un-extrapolated w, Xw
-                    p_obj = datafit.value(y, w, Xw) + penalty.value(w)
-                    p_obj_acc = datafit.value(y, w_acc, Xw_acc) + penalty.value(w_acc)
+                    p_obj = datafit.value(y, w, Xw) + penalty.value(w[:n_features])
+                    p_obj_acc = (datafit.value(y, w_acc, Xw_acc) +
+                                 penalty.value(w_acc[:n_features]))
                     if _verif.ON:
                         _verif.emit("extrap", solver="GroupBCD", t=t, epoch=epoch,
                                     w=w, Xw=Xw, w_acc=w_acc, Xw_acc=Xw_acc,
@@ -183,7 +184,7 @@ class GroupBCD(BaseSolver):
                     stop_crit_in = np.max(opt_ws)
 
                     if max(self.verbose - 1, 0):
-                        p_obj = datafit.value(y, w, Xw) + penalty.value(w)
+                        p_obj = datafit.value(y, w, Xw) + penalty.value(w[:n_features])
                         print(
                             f"Epoch {epoch + 1}, objective {p_obj:.10f}, "
                             f"stopping crit {stop_crit_in:.2e}"
@@ -191,7 +192,7 @@ class GroupBCD(BaseSolver):
 
                     if stop_crit_in <= 0.3 * stop_crit:
                         break
-            p_obj = datafit.value(y, w, Xw) + penalty.value(w)
+            p_obj = datafit.value(y, w, Xw) + penalty.value(w[:n_features])
             p_objs_out[t] = p_obj
             if _verif.ON:
                 _verif.emit("outer_end", solver="GroupBCD", t=t, p_obj=p_obj,
